@@ -252,6 +252,12 @@ fn observe_valid(id: &str, kind: &str, bytes: &[u8], w: &mut dyn Write) {
             let n2 = catch_unwind(AssertUnwindSafe(|| m2.name()));
             let _ = writeln!(w, "nm {}", match (n1, n2) { (Ok(a), Ok(b)) if a == b => "same", (Ok(_), Ok(_)) => "diff", _ => "panic" });
             let _ = writeln!(w, "eq {}", if bincode_of(&m2) == bytes { "same" } else { "diff" });
+            // "... and drives a framework identically": the parsed machine and the original one through the
+            // same scripted history with the same random stream (only for machines small enough to be quick)
+            if m.states.len() <= 64 {
+                let d = catch_unwind(AssertUnwindSafe(|| drive_actions(&m) == drive_actions(&m2)));
+                let _ = writeln!(w, "dr {}", match d { Ok(true) => "same", Ok(false) => "diff", Err(_) => "panic" });
+            }
         }
         Ok(Err(e)) => {
             let _ = writeln!(w, "rt err {}", e.to_string().replace('\n', " "));
@@ -262,6 +268,44 @@ fn observe_valid(id: &str, kind: &str, bytes: &[u8], w: &mut dyn Write) {
     }
     let _ = writeln!(w, "peak {} {} {}", peak, s.len(), std::mem::size_of::<State>());
     let _ = writeln!(w, "end");
+}
+
+/// actions of a framework holding two copies of `m` over a scripted history (every event kind, for both ids
+/// and an unknown one, fair random stream); an invalid machine gives an empty log
+fn drive_actions(m: &Machine) -> Vec<String> {
+    use crate::util::ScriptRng;
+    use crate::vtime::VInstant;
+    use maybenot::{Framework, MachineId, TriggerAction, TriggerEvent};
+    let mut out = Vec::new();
+    let Ok(mut f) = Framework::new(vec![m.clone(), m.clone()], 0.0, 0.0, VInstant(0), ScriptRng::new(21, 0)) else {
+        return out;
+    };
+    let mut t: i128 = 0;
+    for round in 0..40u64 {
+        for id in [0usize, 1, 5] {
+            let mid = MachineId::from_raw(id);
+            let evs = [
+                TriggerEvent::NormalRecv,
+                TriggerEvent::PaddingRecv,
+                TriggerEvent::TunnelRecv,
+                TriggerEvent::NormalSent,
+                TriggerEvent::PaddingSent { machine: mid },
+                TriggerEvent::TunnelSent,
+                TriggerEvent::BlockingBegin { machine: mid },
+                TriggerEvent::BlockingEnd,
+                TriggerEvent::TimerBegin { machine: mid },
+                TriggerEvent::TimerEnd { machine: mid },
+            ];
+            for (k, e) in evs.iter().enumerate() {
+                t += 1000 * ((round + k as u64) % 5) as i128;
+                let acts: Vec<TriggerAction<VInstant>> = f.trigger_events(std::slice::from_ref(e), VInstant(t)).cloned().collect();
+                if !acts.is_empty() {
+                    out.push(format!("{round}/{id}/{k}:{acts:?}"));
+                }
+            }
+        }
+    }
+    out
 }
 
 /// A small valid machine string that is parsed again on the same thread right after every hostile
@@ -572,6 +616,13 @@ fn gen_vstate(p: &mut Prng, n: usize, o: &VOpts, long_vec: bool) -> State {
             let off = p.below((n - k) as u64 + 1) as usize;
             for j in 0..k {
                 v.push(Trans(off + j, 1.0 / 1024.0));
+            }
+        } else if n >= 8 && p.chance(1, 12) {
+            // a medium list: 5 to 8 distinct targets (past any small linear-scan threshold)
+            let k = p.range(5, 8) as usize;
+            let off = p.below((n - k) as u64 + 1) as usize;
+            for j in 0..k {
+                v.push(Trans(off + j, 0.125));
             }
         } else {
             let k = p.range(1, 3) as usize;
